@@ -184,7 +184,17 @@ impl Pom {
             for (i, d) in self.mgmt.iter().enumerate() { decl(&mut x, d, 7 + i as u64); }
             x.close("dependencies"); x.close("dependencyManagement");
         }
+        else if bit(20) {
+            // the container present but empty, in the three spellings XML has for it: the element states nothing (the parents' management
+            // still applies), but a reader that distinguishes "absent" from "present" takes another path
+            match (bit(21), bit(22)) {
+                (false, false) => x.line("<dependencyManagement/>"),
+                (true, false) => { x.open("dependencyManagement"); x.close("dependencyManagement"); }
+                _ => { x.open("dependencyManagement"); x.line("<dependencies/>"); x.close("dependencyManagement"); }
+            }
+        }
         if !deps_first { deps(&mut x); }
+        if self.deps.is_empty() && bit(23) && bit(24) { x.line("<dependencies/>"); }
         if bit(11) {
             x.open("build"); x.open("plugins"); x.open("plugin");
             x.leaf("groupId", "org.apache.maven.plugins"); x.leaf("artifactId", "maven-compiler-plugin"); x.leaf("version", "3.11.0");
